@@ -16,9 +16,12 @@
      urlseq     <pattern> <allow01> <offer,offer,...> refuse | proceed per offer
      urlseqfull <pattern> <allow01> <offer,offer,...> refuse | proceed:broker | proceed:configured per offer
                                    offer: <raw>;E  or  <raw>;P;<scheme>;<host>
+   Machines (Run/NameMatcherGate.v): gate / bseq = one broker context through grun / brun (polls through the gate
+   or through the wire decoder, client offers served by the matching machine); sess = one proxy through prun
+   (relay URL string -> check -> string handed to the dialer -> what the dialer connects to).
    All string arguments are payload specs (x<hex> / g<len>.<a>). *)
 From Coq Require Import List NArith Bool Arith String.
-From Snow Require Import Lib.Wire Model.NameMatcher Model.RelayCheck.
+From Snow Require Import Lib.Wire Model.NameMatcher Model.RelayCheck Run.NameMatcherGate.
 Import ListNotations.
 Open Scope N_scope.
 
@@ -119,6 +122,8 @@ Definition run (args : list bytes) : bytes :=
         | _, _, _ => ERR_BADCASE
         end
       else if beq op (bs "pollseq") then run_pollseq a b c
+      else if beq op (bs "gate") then run_hist false a b c
+      else if beq op (bs "bseq") then run_hist true a b c
       else run_urlseq op a b c
   | [op; a; b; c; d] =>
       if beq op (bs "poll") then
@@ -142,6 +147,14 @@ Definition run (args : list bytes) : bytes :=
         match payload_parse e, payload_parse f with
         | Some sch, Some host => run_url op a b c (Some (Parsed sch host))
         | _, _ => ERR_BADCASE
+        end
+      else ERR_BADCASE
+  | [op; stopper; orelay; obroker; oprobe; ostun; pat; allow; relay; broker; probe; stun; offers] =>
+      (* stopper and the four operator strings configure the Go side (Start()); the model is given what Start() made of them *)
+      if beq op (bs "sess") then
+        match payload_parse orelay, payload_parse obroker, payload_parse oprobe, payload_parse ostun with
+        | Some _, Some _, Some _, Some _ => run_sess pat allow relay broker probe stun offers
+        | _, _, _, _ => ERR_BADCASE
         end
       else ERR_BADCASE
   | _ => ERR_BADCASE
